@@ -319,6 +319,11 @@ def generate(repo):
     t.emit('Definition raster_guarded_statements : Z := %d.' % len(GUARDED))
     # request generators
     t.funcs = {}
+    # the single write of PSET/PRESET (last statement of _pset_preset)
+    t.function('Graphics._pset_preset', coqname='raster_pset_write',
+               param_types=dict(TYPES, x='Z', y='Z', attr='Z'), state=STATE,
+               stmts=(r'^self\.graph_view\[y, x\] = attr$', r'^self\.graph_view\[y, x\] = attr$'))
+    t.funcs = {}
     t.method('_draw_line')
     t.method('_draw_box_filled')
     t.method('_draw_straight')
